@@ -240,7 +240,8 @@ class Callback:
 
     def __call__(self, marginals):
         self.calls += 1
-        if isinstance(self.kind, list) and self.calls == self.kind[1]:
+        if isinstance(self.kind, list) and self.calls >= self.kind[1]:
+            # sticky: a cancelled caller stays cancelled; a callback that outlives its own call would cancel later calls too
             raise SimInterrupt('injected at callback %d' % self.calls)
 
 
@@ -524,8 +525,14 @@ def run_case(case, prop):
             tag = 'op#%d EST solver=%s iters=%d meas=%s total=%r warm=%s' % (oi, solver, iters, sub, total, case['warm'])
             interrupted = False
             model = None
+            use_default = (not opts) and (oi + len(sub)) % 2 == 0       # half of the option-free calls go through the shared default options dict
+            if use_default:
+                faults['shared-default-options-dict'] = faults.get('shared-default-options-dict', 0) + 1
             try:
-                model, v = guard_repo(lambda: eng.estimate(meas, total, engine=solver, callback=cbo, options=options), 'estimate:' + solver)
+                if use_default:
+                    model, v = guard_repo(lambda: eng.estimate(meas, total, engine=solver, callback=cbo), 'estimate:' + solver)
+                else:
+                    model, v = guard_repo(lambda: eng.estimate(meas, total, engine=solver, callback=cbo, options=options), 'estimate:' + solver)
                 if v:
                     if 'TypeError' in v.sig and solver in ('RDA', 'IG') and any(int(np.prod([case['sizes'][attrs.index(a)] for a in case['pool'][i]['proj']])) == 1 for i in sub):
                         v.sig += ':one-cell-marginal'
@@ -537,9 +544,16 @@ def run_case(case, prop):
                         probes['estimate-raised(other property)'] = probes.get('estimate-raised(other property)', 0) + 1
             except SimInterrupt:
                 interrupted = True
-                faults['callback-interrupt'] = faults.get('callback-interrupt', 0) + 1
-                if cbo.calls == 1:
-                    probes['interrupt@1'] = probes.get('interrupt@1', 0) + 1
+                if not isinstance(cb, list):
+                    # this call passed no interrupting callback: the interrupt came from a callback of an EARLIER call
+                    if prop == 'C13':
+                        viol.append(Violation('c13-stale-callback', 'c13-stale-callback', 'a callback passed to an earlier call was invoked (and cancelled) a later call that passed %s (%s; history %s)' % (
+                            'no callback' if cb is None else 'another callback', tag, seq)).as_dict())
+                    cbo = cbo or Callback(None)
+                else:
+                    faults['callback-interrupt'] = faults.get('callback-interrupt', 0) + 1
+                    if cbo.calls == 1:
+                        probes['interrupt@1'] = probes.get('interrupt@1', 0) + 1
             steps += 1 + (cbo.calls if cbo else iters)
             if pending_interrupt:
                 interrupted_then_est = True
